@@ -190,7 +190,13 @@ def run_fixrot(spec, rec):
 
     def adjust(self, atoms, momenta):
         p_before = momenta.copy()
-        out = orig(self, atoms, momenta)
+        try:
+            out = orig(self, atoms, momenta)
+        except Exception as ex:  # noqa: BLE001  (finite masses / momenta, non-collinear positions: inside the statement's domain)
+            rec.count("fixrot_calls")
+            rec.evaluations += 1
+            rec.viol(f"C12/FixRot/raised/{type(ex).__name__}", f"the constraint raised {type(ex).__name__}: {ex}"[:300], {"natoms": len(atoms), "masses": atoms.get_masses()[:6]})
+            return None
         seen["n"] += 1
         rec.count("fixrot_calls")
         rec.evaluations += 1
